@@ -97,11 +97,14 @@ def run(ctx):
     g = gtirb_from_repo.load()
     n = 1500 if ctx.quick else 25000
     cases, env = gen_cases(ctx, g, n)
+    for tn_, why_ in getattr(env, "unbuildable", [])[:3]:
+        ctx.add("oracle", "bytes-differ-from-format", "type %s is a type of the grammar, but a Python value of it cannot even be built: %s" % (tn_, why_), {"type_name": tn_})
+    ctx.count("types_without_python_value", len(getattr(env, "unbuildable", [])))
     reqs, meta = [], []
     for (t, v, env) in cases:
         tn = type_str(t)
         enc = impl_encode(g, v, tn)
-        vs = to_sx(v, env)
+        vs = to_sx(v, env, t)
         for f in features(t, v):
             ctx.count("type:" + f)
         ctx.case(tn + repr(canon(vs)), bool(t[1]) or t[0] in ("string", "float", "double", "UUID", "Offset"))
@@ -116,7 +119,7 @@ def run(ctx):
             # bytes of the independent encoder must decode to the same value
             dec = impl_decode(g, orc[1], tn, env)
             exp = canon(expected_after_roundtrip(t, v, env))
-            if dec[0] != "ok" or canon(to_sx(dec[1], env)) != exp:
+            if dec[0] != "ok" or canon(to_sx(dec[1], env, t)) != exp:
                 ctx.add("oracle", "cross-decode", "type %s: bytes of the independent encoder do not decode to the value" % tn,
                         {"type_name": tn, "value_sx": vs, "bytes": orc[1].hex(), "decoded": repr(dec)[:300]})
         reqs.append([2, zs(tn), vs])
@@ -124,18 +127,18 @@ def run(ctx):
     # non-canonical but legal encodings, produced by the model
     nc = []
     for (t, v, env) in cases:
-        vs = to_sx(v, env)
+        vs = to_sx(v, env, t)
         tn = type_str(t)
         if t[0] == "set" and len(v) >= 1:
-            nc.append((tn, [8, vs[1] + [vs[1][0]]], "set element listed twice"))
+            nc.append((tn, [8, vs[1] + [vs[1][0]]], "set element listed twice", t))
         if t[0] == "mapping" and len(v) >= 1:
             k0, x0 = vs[1][0]
-            nc.append((tn, [9, vs[1] + [[k0, vs[1][-1][1]]]], "mapping key listed twice"))
+            nc.append((tn, [9, vs[1] + [[k0, vs[1][-1][1]]]], "mapping key listed twice", t))
         if t[0] == "sequence" and t[1][0][0] == "set" and len(v) >= 1 and len(v[0]) >= 1:
             inner = vs[1][0]
-            nc.append((tn, [7, [[8, inner[1] + inner[1]]] + vs[1][1:]], "nested set listed twice"))
+            nc.append((tn, [7, [[8, inner[1] + inner[1]]] + vs[1][1:]], "nested set listed twice", t))
     nc = nc[: (300 if ctx.quick else 4000)]
-    nc_reqs = [[2, zs(tn), vs] for tn, vs, _ in nc]
+    nc_reqs = [[2, zs(tn), vs] for tn, vs, _, _ in nc]
     replies = model_batch(reqs + nc_reqs)
     it = iter(replies)
     for (tn, vs, enc) in meta:
@@ -146,21 +149,21 @@ def run(ctx):
                     {"type_name": tn, "value_sx": vs, "impl": _b(enc), "model": _b(mm), "stream": "C08 byte-for-byte correspondence"})
     # second round: decode the model's non-canonical bytes with both
     nc_bytes = []
-    for (tn, vs, why) in nc:
+    for (tn, vs, why, t_) in nc:
         m = model_result(next(it))
         if m[0] == "ok":
-            nc_bytes.append((tn, bytes(m[1]), why))
+            nc_bytes.append((tn, bytes(m[1]), why, t_))
     # bool bytes other than 0/1
     for b in (2, 0x80, 0xFF):
-        nc_bytes.append(("bool", bytes([b]), "bool byte 0x%02x" % b))
-        nc_bytes.append(("sequence<bool>", (3).to_bytes(8, "little") + bytes([0, b, 1]), "bool byte 0x%02x in a sequence" % b))
-    replies = model_batch([[4, zs(tn), list(bs), env.getter] for tn, bs, _ in nc_bytes])
-    for (tn, bs, why), rep in zip(nc_bytes, replies):
+        nc_bytes.append(("bool", bytes([b]), "bool byte 0x%02x" % b, None))
+        nc_bytes.append(("sequence<bool>", (3).to_bytes(8, "little") + bytes([0, b, 1]), "bool byte 0x%02x in a sequence" % b, None))
+    replies = model_batch([[4, zs(tn), list(bs), env.getter] for tn, bs, _, _ in nc_bytes])
+    for (tn, bs, why, t_), rep in zip(nc_bytes, replies):
         ctx.count("noncanonical:" + why.split(" 0x")[0])
         m = model_result(rep)
         dec = impl_decode(g, bs, tn, env)
         if m[0] == "ok":
-            good = dec[0] == "ok" and canon(m[1]) == canon(to_sx(dec[1], env)) and m[2] == 0
+            good = dec[0] == "ok" and canon(m[1]) == canon(to_sx(dec[1], env, t_)) and m[2] == 0
         else:
             good = dec[0] == "err" and dec[1] == m[1]
         ctx.case("nc" + tn + bs.hex(), True)
